@@ -405,15 +405,30 @@ def run_alternating(acc, P, parse_rule):
                  parse_rule('rule:svc:via'),
                  parse_rule('rule:svc:leaf and rule:svc:via2')]
         calls = [(h, d) for h in (False, True) for d in (False, True)]
-        for rule in rules:
+        from oslo_context import context
+        for rule, rep in itertools.product(rules, ('dict', 'ctx-copy',
+                                                   'ctx-same')):
             neg = rule == 'svc:nvia'
             for seq in itertools.product(calls, repeat=3):
                 acc.case('alternating', True)
+                # credentials: a fresh dict per call; copies of ONE request
+                # context (same request id, as context.elevated() gives);
+                # or the very same context object with its roles changed
+                base = context.RequestContext(user_id='u', project_id='p1',
+                                              roles=[])
                 for step, (holds, do_raise) in enumerate(seq):
                     allow = holds != neg
                     acc.ev()
-                    r = call(P, enf, 'enforce', rule, {},
-                             {'roles': ['r'] if holds else []}, do_raise,
+                    roles = ['r'] if holds else []
+                    if rep == 'dict':
+                        creds = {'roles': roles}
+                    elif rep == 'ctx-copy':
+                        creds = copy.copy(base)
+                        creds.roles = roles
+                    else:
+                        creds = base
+                        creds.roles = roles
+                    r = call(P, enf, 'enforce', rule, {}, creds, do_raise,
                              MyExc, (1,), {})
                     ok = (r[0] == 'ret' and bool(r[1])) if allow else \
                         ((r[0] == 'myexc') if do_raise else
@@ -427,8 +442,8 @@ def run_alternating(acc, P, parse_rule):
                             '(the caller %s the role, do_raise=%s)' %
                             (step + 1, seq, rule, r, 'holds' if holds else
                              'lacks', do_raise),
-                            {'rule': str(rule), 'sequence': [list(x) for x
-                                                             in seq]},
+                            {'rule': str(rule), 'credentials': rep,
+                             'sequence': [list(x) for x in seq]},
                             'allow' if allow else 'deny', r, 'alternating')
                         break
                 acc.outcome('alternating')
